@@ -136,7 +136,7 @@ func evalProgram(w int, j job) {
 		texts[i] = t.Role
 	}
 	sl := slots[w]
-	strict := j.fam != "edge"
+	strict := j.fam != "edge" && j.fam != "whole"
 	run := func(what, src string) verdict {
 		sl.src.Store(src)
 		sl.what.Store(what)
@@ -162,6 +162,33 @@ func evalProgram(w int, j job) {
 			atomic.AddInt64(&cnt.formattedChanged, 1)
 		}
 		baseFails[lay] = map[string]bool{}
+		if j.fam == "whole" {
+			// whether a position takes the literal form is decided by the real parser
+			switch {
+			case !v.Accepted && len(v.Fails) == 0:
+				rep.Count("whole_value_programs_rejected_by_parser", 1)
+				continue
+			case v.Accepted:
+				rep.Count("whole_value_programs_accepted_by_parser", 1)
+			}
+			if v.Accepted && len(v.Fails) > 0 && !anyCrashLike(v.Fails) && strings.Contains(src, "\t") {
+				if t, ch := normalise(src, nTab); ch {
+					if v2 := run("base", t); v2.Accepted && len(v2.Fails) == 0 {
+						rep.Count("whole_value_failures_attributed_to:tab-in-literal(values family)", 1)
+						continue
+					}
+				}
+			}
+			for _, f := range v.Fails {
+				rc := replayCase{Src: src, Oracle: f.Oracle, Detail: f.Detail, Family: j.fam, Shape: shape, Layout: layoutNames[lay], Mutation: "none (whole-value literal)", GoTest: goTest(src)}
+				if anyCrashLike([]failure{f}) {
+					coll.add("crash|"+f.Oracle+"|"+f.Detail, len(toks), rc)
+				} else {
+					coll.add("whole|"+f.Oracle+"|"+shape, len(toks), rc)
+				}
+			}
+			continue
+		}
 		if !v.Accepted && len(v.Fails) == 0 {
 			rc := replayCase{Src: src, Oracle: "valid-rejected", Detail: "generated program is rejected by the parser", Family: j.fam, Shape: shape, Layout: layoutNames[lay], GoTest: goTest(src)}
 			_, err, _ := realParse(src)
@@ -328,7 +355,7 @@ func main() {
 	maxToks := flag.Int("maxtoks", 0, "debug: only programs of at most this many tokens")
 	flag.BoolVar(&dryRun, "dry", false, "enumerate and count only (no evaluation)")
 	prof := flag.String("cpuprofile", "", "write a CPU profile")
-	onlyFam := flag.String("fam", "", "debug: only the jobs of this family (values|edge|bytes|inner|seq)")
+	onlyFam := flag.String("fam", "", "debug: only the jobs of this family (values|whole|edge|bytes|inner|seq)")
 	cfg = vlib.ParseFlags("C20", "exploration")
 	if *prof != "" {
 		f, _ := os.Create(*prof)
@@ -353,6 +380,9 @@ func main() {
 	both := []int{layPretty, layCompact}
 	for _, s := range valueStmts() {
 		jobs = append(jobs, job{fam: "values", prog: program{Family: "values", Stmts: []stmt{s}}, layouts: both})
+	}
+	for _, s := range wholeStmts() {
+		jobs = append(jobs, job{fam: "whole", prog: program{Family: "whole", Stmts: []stmt{s}}, layouts: both})
 	}
 	for _, s := range edgeStmts() {
 		jobs = append(jobs, job{fam: "edge", prog: program{Family: "edge", Stmts: []stmt{s}}, comments: 2, mutants: true, layouts: both, cLayouts: both})
@@ -595,13 +625,14 @@ func finish(nInner, nAlpha, seqLen int, dump, partial bool) {
 	rep.Count("mutants_accepted(still valid: full oracle applied)", int(cnt.mutAccepted))
 	rep.Count("mutants_identity_skipped", int(cnt.mutIdentity))
 	rep.Scenario("family_inner", fmt.Sprintf("%d single statements: every inner shape of every statement kind", nInner))
+	rep.Scenario("family_whole", fmt.Sprintf("%d programs: a literal that is empty / one blank / two blanks / a tab / blank+tab as the WHOLE value, string and raw form, at the 8 string positions, alone / next to a non-blank sibling / as every value of the group", len(wholeStmts())))
 	rep.Scenario("family_seq", fmt.Sprintf("all sequences of 1..%d statements over %d representative statements", seqLen, nAlpha))
 	rep.SetRule("evaluation = one source text (program x layout, + one comment insertion, or + one token mutation, or one byte-level variant: prefix / suffix / byte deletion / byte duplication / byte insertion, each distinct text once) pushed through the real scanner/parser/formatter; " +
 		"distinct_nontrivial = distinct source texts that are either accepted by the real parser and went through format/parse/format (valid programs and comment variants) " +
 		"or rejected mutants / byte-level variants that exercised the error paths; comment variants the parser rejects are counted separately and are not non-trivial")
 	rep.Assume("white space inside a comment may differ after formatting (runs of blanks / tabs / line breaks inside a comment compare equal to one blank); a failing accepted byte-level variant is attributed by a differential test (normalise the feature, the failure disappears) to the family that enumerates its cause exhaustively: TAB inside a literal (values family), comment position (comment family), empty literal (outside the domain)")
 	rep.Assume("validity of a comment position is decided by the real parser: a comment variant the parser rejects is not a valid source and only the no-crash demand applies to it")
-	rep.Assume("containers that declare nothing (info(), import(), type(), '()' bodies) may be dropped by the formatter; empty string values are not generated")
+	rep.Assume("containers that declare nothing (info(), import(), type(), '()' bodies) may be dropped by the formatter; empty and white-space-only string values are enumerated by the whole-value family (whole.go) only")
 	rep.Assume("an empty source is outside the domain (scanner.MustNewScanner log.Fatal()s on it by design)")
 	rep.Finish()
 }
